@@ -104,4 +104,34 @@ def examples(tier):
     return [{'family': 'repo', 'pts': pts, 'detector': d, 't1': 0.001, 't2': DETECTORS[d]} for d in sorted(DETECTORS)]
 
 
-SUBS = [Sub('multi_knee', oracle, strategy=cases, budget={'quick': 6400, 'thorough': 96000}, examples=examples)]
+@st.composite
+def long_cases(draw, tier):
+    """Long curves / long sub-ranges (sampling or chunking fast paths only show above ~500 points).
+    The O(n^2)-per-knee L-method is left to the ordinary sub-check."""
+    n = draw(st.integers(513, 1200 if tier == 'quick' else 3000))
+    kind = draw(st.sampled_from(['sawtooth', 'spikes', 'knee+ripple', 'smooth', 'steps']))
+    x = [float(i) for i in range(n)]
+    if kind == 'sawtooth':
+        period = draw(st.sampled_from([2, 3, 4, 5, 7]))
+        amp = draw(st.sampled_from([0.05, 0.2, 1.0]))
+        y = [1.0 + amp * ((i % period) / period) for i in range(n)]
+    elif kind == 'spikes':
+        y = [1.0] * n
+        for _ in range(draw(st.integers(1, 9))):
+            y[draw(st.integers(1, n - 2))] = draw(st.sampled_from([1.5, 3.0, 0.2]))
+    elif kind == 'knee+ripple':
+        kpos = draw(st.integers(10, n // 3))
+        y = [10.0 - 9.0 * i / kpos if i < kpos else 1.0 + 0.01 * (i % 2) for i in range(n)]
+    elif kind == 'steps':
+        levels = draw(st.integers(3, 12))
+        y = [float(levels - (i * levels) // n) for i in range(n)]
+    else:
+        a = draw(st.sampled_from([5.0, 40.0, 200.0]))
+        y = [a / (i + a) for i in range(n)]
+    return {'family': 'long:' + kind, 'pts': [[a, b] for a, b in zip(x, y)],
+            'detector': draw(st.sampled_from(['curvature', 'dfdt', 'menger', 'kneedle'])),
+            't1': draw(st.sampled_from([0.0, 0.001, 0.005, 0.01, 0.05])), 't2': draw(st.sampled_from([3, 4, 8]))  + 1}
+
+
+SUBS = [Sub('multi_knee', oracle, strategy=cases, budget={'quick': 6400, 'thorough': 96000}, examples=examples),
+        Sub('long', oracle, strategy=long_cases, budget={'quick': 160, 'thorough': 1600})]
